@@ -271,7 +271,7 @@ fn families(a: &Args) -> Vec<Family> {
         pair_family("directed-le2-into-4", false, dir2(), dir4(), 0, "every digraph with loops on <= 2 nodes against every loop-free digraph on 4 nodes".into()),
         weighted_family("undirected-le3-weighted", false, Pool::new(vec![SimpleFam::new(1..=3, false, false)]), 12, "every pair of undirected loop-free graphs on 1..=3 nodes x every node weighting {0,1}^n and edge weighting {0,1}^m of both x 7 predicate pairs (eq, always-true, always-false, <=)".into()),
         weighted_family("directed-le2-loops-weighted", false, Pool::new(vec![SimpleFam::new(1..=2, true, true)]), 12, "every pair of digraphs with loops on 1..=2 nodes x every {0,1} node/edge weighting x 7 predicate pairs".into()),
-        pair_family("undirected-4-loops-pairs", true, und4l(), und4l(), 0, "every ordered pair of labelled undirected graphs with self-loops on 4 nodes (1024 x 1024)".into()),
+        pair_family("undirected-4-loops-pairs", false, und4l(), und4l(), 0, "every ordered pair of labelled undirected graphs with self-loops on 4 nodes (1024 x 1024)".into()),
         pair_family("directed-3-into-4", false, Pool::new(vec![SimpleFam::new(3..=3, true, true)]), dir4(), 0, "every digraph with loops on 3 nodes against every loop-free digraph on 4 nodes".into()),
     ];
     if t {
